@@ -6,6 +6,11 @@ ids = [p['id'] for p in props]
 
 # id -> (category, technique, text, note, design_ref)
 CHECKS = {
+ 'C05': ('exploration',
+         'differential property testing in both directions: type-directed program generator (accept) and single type-breaking edits that are ill-typed by construction (reject)',
+         'Direction 1: documents with up to 12 binding bodies and 3 handler bodies grown type-first from the documented subset must be accepted with an empty diagnostic list. Direction 2: the same programs (dynamic and constant-only, bindings and handlers) with exactly one edit from a 30-kind catalogue mirroring the rule list of the statement must be rejected with an error inside the edited binding. The evidence reports the edit-kind x context x site matrix.',
+         'Edits are ill-typed by construction (the position demands a type the replacement certainly lacks); the `<` operator is excluded (known finding in the parser dependency, confirmed by a probe). "No code" is decided here by non-acceptance; the absence of output files is C04.',
+         'DESIGN.md section 3 C05 and appendix B'),
  'C06': ('exploration',
          'property-based testing with a validity predicate (CFG verifier) over every generated function body',
          'The control-flow-heavy end of the language generator (arbitrary nestings of ternary, &&, ||, if/else, switch/case/default/break, early return, shadowing, declarations assigned in both branches, statements after switches) produces binding and handler bodies; every eval.../on... body of the emitted header is parsed into a control-flow graph and verified: existing jump targets, entry b0, every reachable label ends in goto/branch/return (never Q_UNREACHABLE() or the closing brace), value on every reachable return of a value-returning body, and a forward must-be-assigned dataflow for every local before each read.',
